@@ -1,6 +1,6 @@
 (* Proofs about sm9_z256_modn_from_hash (ModN.v). *)
-From Coq Require Import ZArith Lia.
-From GmVerif Require Import Sm9.Tower Sm9.ModN.
+From Coq Require Import ZArith Lia List Znumtheory.
+From GmVerif Require Import Base.Bytes Hash.MD Hash.SM3 Hash.C03Lemmas Codec.Der Codec.DerProofs Sm9.Tower Sm9.ModN Sm9.Fermat.
 Open Scope Z_scope.
 
 Lemma N_facts : 2 ^ 255 < Nord - 1 /\ Nord < 2 ^ 256. Proof. split; reflexivity. Qed.
@@ -127,4 +127,176 @@ Proof.
   - replace (a - b + W256 - (W256 - Nord)) with (a - b + Nord) by ring.
     rewrite Z.mod_small by lia. apply Z.mod_unique with (-1); lia.
   - symmetry. apply Z.mod_small; lia.
+Qed.
+
+(* ------------------------------------------------------------------ Barrett multiplication mod N *)
+Lemma mun_facts : mu_n * Nord <= 2 ^ 512 < (mu_n + 1) * Nord /\ 0 < mu_n /\
+                  Nord * Nord * Nord + 2 ^ 192 * 2 ^ 512 <= Nord * 2 ^ 512.
+Proof. split; [split | split]; vm_compute; congruence. Qed.
+
+Lemma modn_mul_ok a b : 0 <= a < Nord -> 0 <= b < Nord -> modn_mul a b = (a * b) mod Nord.
+Proof.
+  intros Ha Hb. unfold modn_mul. cbv zeta.
+  pose proof N_facts as [HN1 HN2]. pose proof mun_facts as [[Hm1 Hm2] [Hm0 Hcube]].
+  assert (EW : W256 = 2 ^ 256) by reflexivity. assert (E256 : 2 ^ 256 = 2 * 2 ^ 255) by reflexivity.
+  assert (E255 : 0 < 2 ^ 255) by reflexivity.
+  assert (E192 : 0 < 2 ^ 192) by reflexivity. assert (E320 : 0 < 2 ^ 320) by reflexivity.
+  assert (Ep : 2 ^ 512 = 2 ^ 192 * 2 ^ 320) by reflexivity.
+  assert (E320b : 2 ^ 320 = 2 ^ 64 * 2 ^ 256) by reflexivity. assert (E64 : 0 < 2 ^ 64) by reflexivity.
+  set (n := Nord) in *. set (mu := mu_n) in *. set (z := a * b).
+  assert (Hz0 : 0 <= z) by (unfold z; nia).
+  assert (Hz : z < n * n) by (unfold z; nia).
+  set (zh := z / 2 ^ 192).
+  pose proof (Z.div_mod z (2 ^ 192) ltac:(lia)) as Hd1. fold zh in Hd1.
+  pose proof (Z.mod_pos_bound z (2 ^ 192) E192) as Hb1.
+  assert (Hzh0 : 0 <= zh) by (apply Z.div_pos; lia).
+  set (q := zh * mu / 2 ^ 320).
+  pose proof (Z.div_mod (zh * mu) (2 ^ 320) ltac:(lia)) as Hd2. fold q in Hd2.
+  pose proof (Z.mod_pos_bound (zh * mu) (2 ^ 320) E320) as Hb2.
+  assert (Hq0 : 0 <= q) by (apply Z.div_pos; nia).
+  (* q n <= z *)
+  assert (Hlo : q * n <= z).
+  { assert (q * 2 ^ 320 * n <= z * 2 ^ 320).
+    { assert (q * 2 ^ 320 <= zh * mu) by lia.
+      assert (q * 2 ^ 320 * n <= zh * mu * n) by (apply Z.mul_le_mono_nonneg_r; lia).
+      assert (zh * mu * n <= zh * 2 ^ 512).
+      { replace (zh * mu * n) with (zh * (mu * n)) by ring. apply Z.mul_le_mono_nonneg_l; lia. }
+      assert (zh * 2 ^ 512 <= z * 2 ^ 320).
+      { rewrite Ep. replace (zh * (2 ^ 192 * 2 ^ 320)) with ((2 ^ 192 * zh) * 2 ^ 320) by ring.
+        apply Z.mul_le_mono_nonneg_r; lia. }
+      lia. }
+    nia. }
+  (* z - (q+1) n < n *)
+  assert (Hhi : z - (q + 1) * n < n).
+  { assert (H1 : zh * mu < (q + 1) * 2 ^ 320) by lia.
+    assert (H2 : zh * mu * n < (q + 1) * 2 ^ 320 * n) by (apply Z.mul_lt_mono_pos_r; lia).
+    assert (H3 : zh * (2 ^ 512 - n) <= zh * mu * n).
+    { replace (zh * mu * n) with (zh * (mu * n)) by ring. apply Z.mul_le_mono_nonneg_l; lia. }
+    assert (H4 : (z - 2 ^ 192) * 2 ^ 320 < zh * 2 ^ 512).
+    { rewrite Ep. replace (zh * (2 ^ 192 * 2 ^ 320)) with ((2 ^ 192 * zh) * 2 ^ 320) by ring.
+      apply Z.mul_lt_mono_pos_r; lia. }
+    (* zh n 2^192 <= z n < n^3 *)
+    assert (H5 : zh * n * 2 ^ 192 < n * n * n).
+    { assert (zh * 2 ^ 192 <= z) by lia.
+      assert (zh * 2 ^ 192 * n <= z * n) by (apply Z.mul_le_mono_nonneg_r; lia).
+      assert (z * n < n * n * n) by (apply Z.mul_lt_mono_pos_r; lia). lia. }
+    (* (z - 2^192) 2^320 - zh n < (q+1) n 2^320  and  zh n 2^192 + 2^192 2^512 <= n 2^512 *)
+    assert (H6 : (z - 2 ^ 192) * 2 ^ 320 - zh * n < (q + 1) * n * 2 ^ 320) by lia.
+    assert (H7 : (zh * n + 2 ^ 192 * 2 ^ 320) * 2 ^ 192 < n * 2 ^ 320 * 2 ^ 192).
+    { replace (n * 2 ^ 320 * 2 ^ 192) with (n * 2 ^ 512) by (rewrite Ep; ring).
+      replace ((zh * n + 2 ^ 192 * 2 ^ 320) * 2 ^ 192) with (zh * n * 2 ^ 192 + 2 ^ 192 * 2 ^ 512) by (rewrite Ep; ring). lia. }
+    assert (H8 : zh * n + 2 ^ 192 * 2 ^ 320 < n * 2 ^ 320) by (apply Z.mul_lt_mono_pos_r with (p := 2 ^ 192); lia).
+    assert (H9 : (z - (q + 1) * n) * 2 ^ 320 < n * 2 ^ 320) by lia.
+    apply Z.mul_lt_mono_pos_r with (p := 2 ^ 320); lia. }
+  set (r0 := z - q * n) in *.
+  assert (Hr0 : 0 <= r0 < 2 * n) by (unfold r0; lia).
+  assert (E257 : 2 * 2 ^ 256 < 2 ^ 320) by reflexivity.
+  assert (Hr1 : 0 <= r0 < 2 ^ 320) by lia.
+  rewrite (Z.mod_small r0 (2 ^ 320) Hr1).
+  destruct (n <=? r0) eqn:E; [apply Z.leb_le in E | apply Z.leb_gt in E].
+  - rewrite Zminus_mod_idemp_l. rewrite (Z.mod_small (r0 - n) W256) by lia.
+    apply Z.mod_unique with (q + 1); [lia | unfold r0; ring].
+  - rewrite (Z.mod_small r0 W256) by lia. apply Z.mod_unique with q; [lia | unfold r0; ring].
+Qed.
+
+Lemma modn_mul_range a b : 0 <= a < Nord -> 0 <= b < Nord -> 0 <= modn_mul a b < Nord.
+Proof.
+  intros Ha Hb. rewrite modn_mul_ok by assumption. apply Z.mod_pos_bound.
+  pose proof N_facts as [H1 _]. assert (0 < 2 ^ 255) by reflexivity. lia.
+Qed.
+
+Lemma modn_pow_pos_ok a e : 0 <= a < Nord ->
+  gpow_pos (fun x => modn_mul x x) modn_mul 1 a e = (a ^ Zpos e) mod Nord.
+Proof.
+  intros Ha. pose proof N_facts as [H1 _]. assert (E255 : 0 < 2 ^ 255) by reflexivity.
+  assert (HN : 0 < Nord) by lia. assert (H1N : 0 <= 1 < Nord) by lia.
+  induction e as [e IH | e IH |]; cbn [gpow_pos].
+  - assert (R : 0 <= (a ^ Zpos e) mod Nord < Nord) by (apply Z.mod_pos_bound; lia).
+    rewrite IH. rewrite (modn_mul_ok _ _ R R).
+    rewrite modn_mul_ok by (try assumption; apply Z.mod_pos_bound; lia).
+    rewrite <- Z.mul_mod, Z.mul_mod_idemp_l by lia.
+    f_equal. replace (Z.pos e~1) with (Zpos e + Zpos e + 1) by lia. rewrite !Z.pow_add_r, Z.pow_1_r by lia. ring.
+  - assert (R : 0 <= (a ^ Zpos e) mod Nord < Nord) by (apply Z.mod_pos_bound; lia).
+    rewrite IH. rewrite (modn_mul_ok _ _ R R). rewrite <- Z.mul_mod by lia.
+    f_equal. replace (Z.pos e~0) with (Zpos e + Zpos e) by lia. rewrite Z.pow_add_r by lia. ring.
+  - rewrite (modn_mul_ok 1 1 H1N H1N). change (1 * 1) with 1. rewrite (Z.mod_small 1 Nord) by lia.
+    rewrite modn_mul_ok by assumption. rewrite Z.pow_1_r. f_equal; ring.
+Qed.
+Lemma modn_pow_ok a e : 0 <= a < Nord -> 0 < e -> modn_pow a e = (a ^ e) mod Nord.
+Proof. intros Ha He. unfold modn_pow, gpow. destruct e; try lia. apply modn_pow_pos_ok; assumption. Qed.
+
+(* sm9_z256_modn_inv = a^(N-2): an inverse when N is prime (premise) *)
+Lemma modn_inv_ok a : prime Nord -> 0 < a < Nord -> 0 <= modn_inv a < Nord /\ (a * modn_inv a) mod Nord = 1.
+Proof.
+  intros HP Ha. pose proof N_facts as [H1 _]. assert (E255 : 0 < 2 ^ 255) by reflexivity.
+  assert (HN2 : 0 < Nord - 2) by lia.
+  unfold modn_inv. rewrite modn_pow_ok by lia. split; [apply Z.mod_pos_bound; lia |].
+  rewrite Z.mul_mod_idemp_r by lia.
+  replace (a * a ^ (Nord - 2)) with (a ^ (Nord - 1)).
+  - apply (fermat_little Nord HP). rewrite Z.mod_small by lia. lia.
+  - replace (Nord - 1) with (Z.succ (Nord - 2)) by lia. rewrite Z.pow_succ_r by lia. reflexivity.
+Qed.
+
+(* the scalar of sm9_*_master_key_extract_key: None exactly when H1 + k = 0 mod N, otherwise the t2
+   with t2 (H1 + k) = k mod N that the scheme theorems take as premise *)
+Lemma extract_core n t1 ti k s : 1 < n -> t1 = s mod n -> (t1 * ti) mod n = 1 ->
+  ((ti * k) mod n * s) mod n = k mod n /\ (s * ti) mod n = 1 mod n.
+Proof.
+  intros Hn Et Hi. split.
+  - rewrite Z.mul_mod_idemp_l by lia. replace (ti * k * s) with (k * (s * ti)) by ring.
+    rewrite <- Z.mul_mod_idemp_r by lia. rewrite <- (Z.mul_mod_idemp_l s) by lia. rewrite <- Et, Hi. f_equal; ring.
+  - rewrite <- Z.mul_mod_idemp_l by lia. rewrite <- Et, Hi. rewrite Z.mod_small by lia. reflexivity.
+Qed.
+Lemma extract_t2_ok h1 k : prime Nord -> 0 <= h1 < Nord -> 0 <= k < Nord ->
+  match extract_t2 h1 k with
+  | None => (h1 + k) mod Nord = 0
+  | Some t2 => 0 <= t2 < Nord /\ (t2 * (h1 + k)) mod Nord = k mod Nord /\
+               exists t1inv, ((h1 + k) * t1inv) mod Nord = 1 mod Nord /\ t2 = (k * t1inv) mod Nord
+  end.
+Proof.
+  intros HP Hh Hk. pose proof N_facts as [H1 _]. assert (E255 : 0 < 2 ^ 255) by reflexivity.
+  assert (HN : 1 < Nord) by lia.
+  unfold extract_t2. cbv zeta. rewrite modn_add_ok by assumption.
+  pose proof (Z.mod_pos_bound (h1 + k) Nord ltac:(lia)) as Hb.
+  destruct (Z.eqb_spec ((h1 + k) mod Nord) 0) as [E | NE]; [exact E |].
+  destruct (modn_inv_ok ((h1 + k) mod Nord) HP ltac:(lia)) as [Hi Hinv].
+  rewrite modn_mul_ok by assumption.
+  destruct (extract_core Nord _ _ k (h1 + k) HN eq_refl Hinv) as [C1 C2].
+  split; [apply Z.mod_pos_bound; lia | split; [exact C1 |]].
+  exists (modn_inv ((h1 + k) mod Nord)). split; [exact C2 | rewrite Z.mul_comm; reflexivity].
+Qed.
+
+(* ------------------------------------------------------------------ H1 / H2 *)
+Lemma sm3_bytes m : bytes_okP (sm3 m).
+Proof.
+  unfold sm3, md_hash, sm3_out. apply Forall_forall. intros x Hx. apply in_flat_map in Hx.
+  destruct Hx as (w & _ & Hw). unfold be32 in Hw. cbn [In] in Hw.
+  assert (forall y, w8 y < 256)%N as W by (intros y; unfold w8; change 255%N with (N.ones 8); rewrite N.land_ones; apply N.mod_lt; discriminate).
+  destruct Hw as [<- | [<- | [<- | [<- | []]]]]; apply W.
+Qed.
+Lemma in_firstn {A} n (l : list A) x : In x (firstn n l) -> In x l.
+Proof. revert l; induction n as [|n IH]; intros [|y l]; cbn; try tauto. intros [->|H]; [left; reflexivity | right; apply IH; exact H]. Qed.
+Lemma ha_of_range pfx data : 0 <= ha_of pfx data < 2 ^ 320.
+Proof.
+  unfold ha_of. cbv zeta. split; [apply N2Z.is_nonneg |].
+  set (l := firstn 40 _).
+  assert (HB : bytes_okP l).
+  { unfold l. apply Forall_forall. intros x Hx. apply in_firstn in Hx. apply in_app_or in Hx.
+    destruct Hx as [Hx | Hx]; [exact (proj1 (Forall_forall _ _) (sm3_bytes _) x Hx) | exact (proj1 (Forall_forall _ _) (sm3_bytes _) x Hx)]. }
+  assert (HL : length l = 40%nat).
+  { unfold l. rewrite firstn_length, app_length, !sm3_len. reflexivity. }
+  pose proof (be_to_N_lt l HB) as Hlt. unfold len in Hlt. rewrite HL in Hlt.
+  replace (N.of_nat 40) with 40%N in Hlt by reflexivity.
+  apply N2Z.inj_lt in Hlt. rewrite N2Z.inj_pow in Hlt.
+  assert (E : Z.of_N 256 ^ Z.of_N 40 = 2 ^ 320) by (vm_compute; reflexivity). rewrite E in Hlt. exact Hlt.
+Qed.
+Lemma sm9_hash1_ok id hid : sm9_hash1_impl id hid = sm9_hash1_spec id hid /\ 1 <= sm9_hash1_impl id hid <= Nord - 1.
+Proof.
+  unfold sm9_hash1_impl, sm9_hash1_spec. pose proof (ha_of_range 1%N (id ++ hid :: nil)) as H.
+  split; [apply from_hash_ok; exact H | apply from_hash_range; exact H].
+Qed.
+Lemma sm9_hash2_ok m w : sm9_hash2_impl m w = sm9_hash2_spec m w /\ 1 <= sm9_hash2_impl m w <= Nord - 1.
+Proof.
+  unfold sm9_hash2_impl, sm9_hash2_spec. pose proof (ha_of_range 2%N (m ++ w)) as H.
+  split; [apply from_hash_ok; exact H | apply from_hash_range; exact H].
 Qed.
